@@ -598,6 +598,12 @@ generic(struct scope *s)
 	struct expr *e, *match = NULL, *def = NULL;
 	struct type *t, *want;
 	enum typequal qual;
+	struct assoc {
+		struct type *type;
+		enum typequal qual;
+	} *a;
+	struct array assocs = {0};
+	size_t i;
 
 	next();
 	expect(TLPAREN, "after '_Generic'");
@@ -622,6 +628,14 @@ generic(struct scope *s)
 				error(&tok.loc, "generic association must have complete type");
 			if (t->prop & PROPVM)
 				error(&tok.loc, "generic association has variably modified type");
+			for (i = 0; i < assocs.len / sizeof(*a); ++i) {
+				a = (struct assoc *)assocs.val + i;
+				if (a->qual == qual && typecompatible(a->type, t))
+					error(&tok.loc, "generic associations specify compatible types");
+			}
+			a = arrayadd(&assocs, sizeof(*a));
+			a->type = t;
+			a->qual = qual;
 			expect(TCOLON, "after type name");
 			e = assignexpr(s);
 			if (typecompatible(t, want) && qual == QUALNONE) {
@@ -634,6 +648,7 @@ generic(struct scope *s)
 		}
 	} while (consume(TCOMMA));
 	expect(TRPAREN, "after generic assocation list");
+	free(assocs.val);
 	if (!match) {
 		if (!def)
 			error(&tok.loc, "generic selector matches no associations and no default was specified");
